@@ -5329,10 +5329,10 @@ impl BytecodeVM {
                     let val = self.get_reg(start + i);
                     // For objects, call toString method; for primitives, use to_js_string
                     let str_val = if let JsValue::Object(obj) = &val {
-                        // Check if object has a custom toString method
-                        if let Some(JsValue::Object(func_obj)) =
-                            obj.borrow().get_property(&to_string_key)
-                        {
+                        // Check if object has a custom toString method (looked up first: the
+                        // receiver must not stay borrowed while the method runs)
+                        let to_string_method = obj.borrow().get_property(&to_string_key);
+                        if let Some(JsValue::Object(func_obj)) = to_string_method {
                             if func_obj.borrow().is_callable() {
                                 // Call toString()
                                 match interp.call_function(
